@@ -8,5 +8,7 @@ git -C /repo worktree add -q --detach "$WT" HEAD || exit 2
 trap 'git -C /repo worktree remove --force "$WT" >/dev/null 2>&1; rm -rf "$WT" "$SV"' EXIT
 cp /verif/known_findings.json "$SV/"; mkdir -p "$SV/evidence"
 if ! git -C "$WT" apply "/verif/seeded/$S/patch.diff"; then echo "PATCH-DOES-NOT-APPLY $S"; exit 3; fi
-P=$(echo "$@" | tr ' ' ',')
-/verif/bin/lvcheck -prop "$P" -repo "$WT" -verif "$SV" 2>&1 | grep -v "^WARNING conda"
+FLAGS=""; PROPS=""
+for a in "$@"; do case "$a" in -*) FLAGS="$FLAGS $a";; *) PROPS="$PROPS $a";; esac; done
+P=$(echo $PROPS | tr ' ' ',')
+/verif/bin/lvcheck $FLAGS -prop "$P" -repo "$WT" -verif "$SV" 2>&1 | grep -v "^WARNING conda"
